@@ -405,6 +405,7 @@ def check_twist(cm, pt):
 import closed  # noqa: E402,F401  (registers the closed-term facts)
 import fieldmon  # noqa: E402,F401
 import hashmon  # noqa: E402,F401
+import codecmon  # noqa: E402,F401
 
 
 # ------------------------------------------------------------------------------------------
